@@ -106,6 +106,8 @@ def cmd_check(pid, tier, seed):
             harness_errors.append({"job": name, "kind": "path-replay-mismatch", "detail": o["validation_failures"][:2]})
         if o["status"].get("diverged"):
             harness_errors.append({"job": name, "kind": "replay-divergence", "detail": o["aborts"]})
+        if o["status"].get("harness-exception"):
+            harness_errors.append({"job": name, "kind": "exception-inside-the-harness", "detail": {k: v for k, v in o["aborts"].items() if k.startswith("harness-exception")}})
         nviol = 0
         for rec in o["violations"] + o["findings"]:
             sig = rec["label"]
@@ -229,7 +231,13 @@ def main(argv=None):
     a = ap.parse_args(argv)
     seed = int(os.environ.get("VERIF_SEED", "0") or 0)
     if a.cmd == "check":
-        return cmd_check(a.pid, a.tier, seed)
+        try:
+            return cmd_check(a.pid, a.tier, seed)
+        except Exception as e:     # never let a bug of the machinery look like a verdict
+            import traceback
+            traceback.print_exc()
+            print(f"HARNESS-ERROR {type(e).__name__}: {e}")
+            return EXIT_HARNESS
     return cmd_replay(a.path)
 
 
